@@ -275,13 +275,16 @@ def _c20_mutate(rec):
 
 
 reg(P("C20", "plugins", "c20",
-      mc={"quick": [("CircuitBreaker", "CircuitBreaker_mc.cfg", 600)],
-          "thorough": [("CircuitBreaker", "CircuitBreaker_mc_big.cfg", 1200)]},
+      mc={"quick": [("CircuitBreaker", "CircuitBreaker_mc.cfg", 600), ("CircuitBreakerConc", "CircuitBreakerConc_add.cfg", 300),
+                    ("CircuitBreakerConc", "CircuitBreakerConc_loadstore.cfg", 300, "violation")],
+          "thorough": [("CircuitBreaker", "CircuitBreaker_mc_big.cfg", 1200), ("CircuitBreakerConc", "CircuitBreakerConc_add.cfg", 300),
+                       ("CircuitBreakerConc", "CircuitBreakerConc_loadstore.cfg", 300, "violation")]},
       traces=[("", "CircuitBreakerTrace", "CircuitBreakerTrace.cfg")],
       level="model_checking",
       rule="cases = every outcome sequence over {ok,err,panic} up to the tier's length x threshold 0..3 x "
-           "recovery {1ns, 1h} x mock on/off, plus seeded sequences with real waits around a 60 ms recovery "
-           "time; a case is non-trivial when at least one downstream call fails; distinct by full input",
+           "recovery {1ns, 1h, the largest duration} x mock on/off, plus seeded sequences with real waits around a 60 ms "
+           "recovery time; rounds of threshold+1 forwarded calls failing at the same instant on a fresh breaker, "
+           "then a probe that must be refused (CircuitBreakerConc.tla); a case is non-trivial when at least one downstream call fails; distinct by full input",
       assumptions=["time is observed through monotonic clock readings around each call; when those cannot decide "
                    "whether the recovery time had elapsed the monitor accepts both decisions",
                    "the half-open restart value of the failure counter is not fixed by the property (any value "
@@ -433,12 +436,12 @@ reg(P("C09", "mux", "c09",
                     ("MuxMC", "Mux_c09_bug_wrap.cfg", 600, "violation"),
                     ("ReverseMC", "Reverse_fix.cfg", 600), ("ReverseMC", "Reverse_live.cfg", 600),
                     ("ReverseMC", "Reverse_bug_idle.cfg", 600, "violation"), ("ReverseMC", "Reverse_bug_stop.cfg", 600, "violation"),
-                    ("ReverseMC", "Reverse_bug_wake.cfg", 600, "violation")],
+                    ("ReverseMC", "Reverse_bug_wake.cfg", 600, "violation"), ("ReverseMC", "Reverse_bug_order.cfg", 600, "violation")],
           "thorough": [("MuxMC", "Mux_c09.cfg", 600), ("MuxMC", "Mux_c09_wrapfix.cfg", 600), ("MuxMC", "Mux_c10.cfg", 1200),
                        ("MuxMC", "Mux_c09_bug_wrap.cfg", 600, "violation"),
                        ("ReverseMC", "Reverse_fix.cfg", 600), ("ReverseMC", "Reverse_fix_big.cfg", 1500), ("ReverseMC", "Reverse_live.cfg", 600),
                        ("ReverseMC", "Reverse_bug_idle.cfg", 600, "violation"), ("ReverseMC", "Reverse_bug_stop.cfg", 600, "violation"),
-                       ("ReverseMC", "Reverse_bug_wake.cfg", 600, "violation")]},
+                       ("ReverseMC", "Reverse_bug_wake.cfg", 600, "violation"), ("ReverseMC", "Reverse_bug_order.cfg", 600, "violation")]},
       traces=[("", "MuxTrace", "MuxTrace.cfg")],
       level="model_checking",
       rule="cases = {tcp, unix, udp, websocket} x {answers in reverse order, shuffled, with duplicated responses carrying "
